@@ -62,7 +62,7 @@ class Tm:
             return f"{self.args[0]!r}(...)"
         return f"{self.op}({', '.join(map(repr, self.args))})"
 
-    def __call__(self, *a, **k):
+    def __call__(self, /, *a, **k):
         return Tm("call", self, tuple(a), tuple(sorted(k.items())))
 
 
@@ -265,7 +265,7 @@ class Child:
         return f"<child {self.name}>"
 
 
-def cases_for(kind, sym, fields):
+def cases_for(kind, sym, fields, kw_names=()):
     """-> [Case]"""
     out = []
     import operator as _o
@@ -350,6 +350,18 @@ def cases_for(kind, sym, fields):
             ev += [k1, k2]
         out.append(Case("", flds, ev, Tm("call", f.value,
                                          (p1.value, p2.value), kw), ev))
+        # keyword arguments named like parameters of the evaluator's own
+        # methods: they are the called function's business, not the mapper's
+        if "kw_parameters" in fields and kw_names:
+            f2, q1 = Child("function"), Child("parameters[0]")
+            kws = {nm: Child(f"kw_parameters[{nm}]") for nm in kw_names}
+            out.append(Case(
+                f"keywords named {sorted(kw_names)}",
+                {"function": f2, "parameters": (q1,), "kw_parameters": kws},
+                [f2, q1] + list(kws.values()),
+                Tm("call", f2.value, (q1.value,),
+                   tuple(sorted((k_, c_.value) for k_, c_ in kws.items()))),
+                [f2, q1] + list(kws.values())))
     else:
         raise AnalysisError(f"evaluator judge: kind {kind}")
     return out
@@ -376,7 +388,17 @@ def judge(model, ev: ClassInfo, node_name, handler_name, kind, sym, fields,
                 return ("func", m_.node)
         return None
     wit = []
-    cases = cases if cases is not None else cases_for(kind, sym, fields)
+    if cases is None:
+        kw_names = set()
+        if kind == "call":
+            for k_ in model.mro(ev):
+                if isinstance(k_, ClassInfo) and k_.module is ev.module:
+                    for m_ in k_.members.values():
+                        if m_.kind == "func":
+                            kw_names |= {a_.arg for a_ in m_.node.args.args
+                                         + m_.node.args.kwonlyargs}
+            kw_names = set(sorted(kw_names)[:12])
+        cases = cases_for(kind, sym, fields, kw_names)
     for c in cases:
         asked = []
 
